@@ -131,6 +131,18 @@ const bseqPrelude = `(assert (forall ((a BSeq)) (! (not (bs.lt a a)) :pattern ((
 (assert (forall ((a BSeq) (b BSeq)) (! (=> (and (= (bs.pfx b (bs.len a)) a) (not (= a b))) (bs.lt a b)) :pattern ((bs.pfx b (bs.len a)) (bs.lt a b)))))
 `
 
+// object identity for per-object ghost maps: okey pairs (dynamic type tag, reference) injectively; intr names the
+// address of a field inside an object (embedded struct), distinct from every allocated reference (negative).
+const objKeyPrelude = `(declare-fun okey (Int Int) Int)
+(declare-fun okey.t (Int) Int)
+(declare-fun okey.v (Int) Int)
+(assert (forall ((t Int) (v Int)) (! (and (= (okey.t (okey t v)) t) (= (okey.v (okey t v)) v)) :pattern ((okey t v)))))
+(declare-fun intr (Int Int) Int)
+(declare-fun intr.r (Int) Int)
+(declare-fun intr.f (Int) Int)
+(assert (forall ((r Int) (f Int)) (! (and (= (intr.r (intr r f)) r) (= (intr.f (intr r f)) f) (< (intr r f) 0)) :pattern ((intr r f)))))
+`
+
 var prelude = genPrelude()
 var bitsPrelude = genBitsPrelude()
 
@@ -143,6 +155,9 @@ func (c *Ctx) queryText(o *Obligation, forModel bool) string {
 	}
 	if c.usesBSeq {
 		sb.WriteString(bseqPrelude)
+	}
+	if c.usesObjKey {
+		sb.WriteString(objKeyPrelude)
 	}
 	for _, l := range c.sortCmds {
 		sb.WriteString(l + "\n")
